@@ -6,9 +6,9 @@ P="$1"; shift
 S=/tmp/tss-$$
 mkdir -p $S/out
 git -C /repo archive --format=tar --prefix=repo/ HEAD | tar -x -C $S
-cp -r /verif/harness $S/harness && rm -rf $S/harness/target
+cp -r ${HARNESS_SRC:-/verif/harness} $S/harness && rm -rf $S/harness/target
 sed -i "s#/repo/#$S/repo/#g" $S/harness/Cargo.toml
-sed -i "s#/verif/.target#$S/target#" $S/harness/.cargo/config.toml
+sed -i -E "s#^target-dir = .*#target-dir = \"$S/target\"#" $S/harness/.cargo/config.toml
 cp /verif/known_findings.json $S/out/
 export VERIF_DIR_OVERRIDE=$S/out CARGO_NET_OFFLINE=true
 (cd $S/repo && patch -p1 -s < "$P") || { echo "PATCH-FAIL"; rm -rf $S; exit 2; }
